@@ -11,6 +11,10 @@ def build(rng, n_streams, res):
     for k_ in range(n_streams):
         segs, s, kinds = G.rand_segments(rng, rng.choice([1, 2, 3, 6, 10]) if k_ % 10 else rng.choice([33, 40, 70, 130]))
         filt = G.rand_filter(rng, segs)
+        if k_ % 25 == 7:
+            # a long undrained backlog: hundreds of small frames, all passing the filter, fetched only at the end
+            segs, s, kinds = G.backlog_segments(rng, rng.choice([65, 129, 257, 300, 520]))
+            filt = rng.choice([None, sorted(set((x[1], x[2]) for x in segs))])
         q_a, n_a = G.expected_c02(segs, filt)
         filt_a = filt
         for cname, parts in G.chunkings(rng, s) + [('switch', None)]:
